@@ -3,6 +3,7 @@ module verif
 go 1.21.6
 
 require (
+	github.com/evolbioinfo/goalign v0.3.7-0.20230906113011-fcecb09f9d43
 	github.com/evolbioinfo/gotree v0.0.0
 	github.com/spf13/cobra v1.5.0
 	github.com/spf13/pflag v1.0.5
@@ -14,7 +15,6 @@ require (
 	github.com/abiosoft/readline v0.0.0-20180607040430-155bce2042db // indirect
 	github.com/ajstarks/svgo v0.0.0-20211024235047-1546f124cd8b // indirect
 	github.com/armon/go-radix v1.0.0 // indirect
-	github.com/evolbioinfo/goalign v0.3.7-0.20230906113011-fcecb09f9d43 // indirect
 	github.com/fatih/color v1.10.0 // indirect
 	github.com/flynn-archive/go-shlex v0.0.0-20150515145356-3f9db97f8568 // indirect
 	github.com/fredericlemoine/bitset v1.2.0 // indirect
